@@ -28,6 +28,9 @@ def run(r):
             # the probe traces of the same runs against the trim actions of ParsleyMachine (conformance; a rejection is drift)
             v = parsefam.validate_traces(r, parsefam.split_trace_file(r, tr, 8), [])
             stats.append({"tokens": ntok, "gaplen": gl, "slice": "%d/%d" % (sl, ns), "cases": res["cases"], "states": res["states"], "machine_traces": v})
+    # trims in the mode that allows any run over operands with SEVERAL alternatives of different lengths: every alternative's end
+    # moves behind the run that follows it (judged through Derivation!Ends: the sentence succeeds iff the whole input is derived)
+    parsefam.run_plan(r, {"props": ["C04"], "families": [("TRNL", 5 if th else 4, [97, 98, 32], 1, [0], {})], "random": []})
     rnd = pure.code_to_model(r, "trim", "TrimTrace", "TrimTrace.cfg", 8 if th else 2, dict(n=400 if th else 150, maxtok=12),
                              lambda x: True, describe=lambda rows: rows[0], group_key=lambda x: json.dumps([x["toks"], x["lm"], x["rm"]]))
     r.extra["families"] = stats
